@@ -250,5 +250,10 @@ func init() {
 	for _, id := range []string{"C01", "C04"} {
 		extendProp(id, tbnd, tbF, func(c *Ctx) { defer c.cleanup(); c.scanRun("token-bounds") })
 	}
+	const hs = "heredoc-spec: the transition condition of the heredoc and nowdoc machines that decides whether the body goes on at the cursor (the hand-written predicates isHeredocEnd / isHeredocEndBefore73 / isHeredocEndSince73 and what they call, interpreted from source by package ceval - nothing is compiled or run) equals PHP's rule for the configured version on a bounded family of scenarios: previous byte {LF, CR, other} x indentation {none, blank, tab, two} x {the label, the label with its last byte changed, a proper prefix} x every sequence of up to two following bytes over the constants the code compares bytes with plus the classes of PHP's label characters x labels of one and two bytes x versions 5.6, 7.2, 7.3, 7.4 (about 290,000 evaluations). Before 7.3: label in column 0, optional `;`, then a line terminator or the end of the input; since 7.3: optional indentation, label, not followed by a label character. The family is bounded (the predicates loop over the indentation and compare a slice with the label), so this is a necessary condition, not a proof (seeds C03-12 = C06-10 = C10-10: isValidVarNameStart instead of isValidVarName after the label; C08-11; C17-12)."
+	hsF := []report.Floor{{Rule: "heredoc-spec", What: "conditions", Min: 2}, {Rule: "heredoc-spec", What: "scenarios", Min: 100000}}
+	for _, id := range []string{"C03", "C06", "C08", "C10"} {
+		extendProp(id, hs, hsF, func(c *Ctx) { defer c.cleanup(); c.scanRun("heredoc-spec") })
+	}
 	properties["PO"] = &Property{Level: "other", Run: func(c *Ctx) { defer c.cleanup(); c.presenceOracle() }}
 }
